@@ -37,7 +37,29 @@ void h_add_penalty_term(void){ uint64_t* ns; double* knots; uint32_t ndim, dim, 
                        backend="cbmc-sat-contracts", note="entry point from fit.h; NO precondition porder<=order; calc_penalty replaced by its contract (requires porder<=order)"))
     return [dd, cp, ap], js
 
+def replay_fitargs(v):
+    """fit() argument obligations -> the real fit() natively (ASan/UBSan) for the inconsistent-argument cases"""
+    wd = vlib.workdir(); R = vlib.REPO; exe = os.path.join(wd, "fitargs")
+    if not os.path.exists(exe):
+        cmds = ["gcc -c -O1 -g -fsanitize=address,undefined -fno-sanitize-recover=undefined -I%s/include -I/usr/include/suitesparse %s/src/fitter/%s.c -o %s/a_%s.o" % (R, R, f, wd, f) for f in ("glam", "splineutil", "nnls", "cholesky_solve")]
+        cmds.append("g++ -std=c++11 -O1 -g -fsanitize=address,undefined -fno-sanitize-recover=undefined -DPHOTOSPLINE_INCLUDES_SPGLAM -I%s/include -I/usr/include/suitesparse %s/tools/replay/replay_fitargs.cpp %s/src/core/*.cpp "
+                    "%s/a_glam.o %s/a_splineutil.o %s/a_nnls.o %s/a_cholesky_solve.o -lcfitsio -lcholmod -lspqr -lsuitesparseconfig -llapack -lblas -lpthread -lm -o %s" % (R, vlib.VERIF, R, wd, wd, wd, wd, exe))
+        for c in cmds:
+            rc, out, w = vlib.sh(c, timeout=600)
+            if rc != 0: return dict(replayed=False, error="replay build failed: " + out[-600:])
+    env = dict(os.environ); env["ASAN_OPTIONS"] = "detect_leaks=0"; outs = {}
+    for mode in ("valid", "shortcoords", "fewknots", "fewknots2"):
+        rc, out, w = vlib.sh("timeout 120 %s %s" % (exe, mode), timeout=130, env=env)
+        outs[mode] = "exit %d: %s" % (rc, out[:600])
+        if rc != 0:
+            return dict(replayed=True, input="real splinetable::fit, 1-D order 2, case '%s'" % mode, driver="tools/replay/replay_fitargs.cpp (ASan+UBSan)", exit_code=rc, observed=out[:2500])
+    return dict(replayed=False, note="native fit() rejects short coordinate vectors and too-short knot vectors and accepts the valid problem", observed=outs)
+
 def replayer(v):
+    if v["job"] == "C13-fit-arguments": return replay_fitargs(v)
+    return replayer_penalty(v)
+
+def replayer_penalty(v):
     """contract obligation failed -> run the real add_penalty_term (real cholmod) over the
     small grid of (order, penalty order) the property quantifies over, under ASan/UBSan"""
     exe = os.path.join(vlib.workdir(), "replay_penalty")
@@ -63,8 +85,10 @@ if __name__ == "__main__":
     fns, js = jobs(vlib.TIER == "thorough")
     vlib.run_jobs(js, nproc=3)
     rep = vlib.Report("C13"); rep.add_jobs(js)
+    import c13_fit
+    c13_fit.add(rep, vlib.TIER == "thorough")
     for f in fns: rep.functions.append(f.info())
-    rep.assume("C++ half not covered: the sanity-check block of splinetable::fit (fit.h) - mismatched container lengths, index ranges, unsorted/too few knots, monodim range - is C++ (templates, exceptions) outside the verifier's reach; it is assumed to establish: nknots[d] >= 2*order[d]+2 (hence nsplines[d] >= order[d]+1), knots readable for nknots doubles",
+    rep.assume("C++ half: the whole template splinetable::fit is extracted (rules R7, R14-R19: containers -> (pointer,size), throw -> ghost flag + return, unique_ptr/allocate -> storage primitives) and executed from CBMC's GOTO program for valid problems and every single-fault variant of the arguments (ndim 1, 2), with add_penalty_term/glamfit_complex hooked to check their preconditions (BOUNDED: enumerated combinations); the C wrapper's non-zero return is not covered",
                "cholmod_l_allocate_triplet/triplet_to_sparse/ssmult/transpose/speye/add/free_*, cholmod_tril, kronecker_product: nondeterministic stubs (stubs/cholmod_stubs.h): return fresh objects of the requested capacity, contents unconstrained",
                "bsplinebasis/bspline in splineutil.c and glamfit_complex are not under contract here",
                "glam.c functions are extracted verbatim (comments dropped, no rewrite rule fires); loop contracts inserted by ordinal",
